@@ -31,6 +31,10 @@ func NewValueFromString(typ Type, data string) (Value, error) {
 		if err := json.Unmarshal([]byte(data), &number); err != nil {
 			return nil, err
 		}
+		if number == nil {
+			// "null" decodes without error and leaves the pointer nil
+			return nil, fmt.Errorf("invalid number '%s'", data)
+		}
 		value = number
 	case TypeMonetary:
 		parts := strings.SplitN(data, " ", 2)
